@@ -95,6 +95,11 @@ def materialise(case):
         parts, shape = gen.rand_feature_parts(rng, n)
         feats.append({"type": rng.choice(["CDS", "misc_feature", "source", "promoter"]), "parts": parts,
                       "quals": {"uid": ["u%d" % j], "note": ["n%d" % j]}})
+    rdup = gen.rng_for(case["seed"], PROP, "dup", case["i"])   # own stream: the draws above and below stay what they were
+    if feats and rdup.random() < 0.2:
+        # the same annotation listed twice (exact duplicate, as plasmid editors export them)
+        import copy
+        feats.insert(rdup.randint(0, len(feats)), copy.deepcopy(rdup.choice(feats)))
     letters = {}
     if rng.random() < 0.7:
         letters["q"] = list(range(100, 100 + n))
